@@ -405,6 +405,11 @@ def _only_mounts_move_the_path(p: Program, rep: Report) -> None:
         # the rewrite may sit in a private helper of a routing module that receives the key names as arguments
         # (`request[root_key] = ...`): a writer with computed keys, still the mount dispatcher's own code
         for fn in p.all_functions():
+            if fn.fq in owners_ok and any(isinstance(n, ast.Assign) and any(isinstance(t, ast.Subscript) and not isinstance(t.slice, ast.Constant) and isinstance(t.value, ast.Name) and t.value.id in fn.params
+                                                                             for t in n.targets) for n in ast.walk(fn.node)):
+                n_ok += 1  # the mount dispatcher itself, writing through key names held in class attributes (`request[self._routed_key] = ...`)
+                rep.analysed(fn.fq)
+                continue
             if fn.module.name.endswith("routing") and fn.name.startswith("_") and not fn.name.startswith("__") and any(
                     isinstance(n, ast.Assign) and any(isinstance(t, ast.Subscript) and isinstance(t.slice, ast.Name) and t.slice.id in fn.params and isinstance(t.value, ast.Name) and t.value.id in fn.params for t in n.targets)
                     for n in ast.walk(fn.node)):
